@@ -45,5 +45,10 @@ Definition cremove (c : cache) (k : bytes) : cache :=
 Definition cremove_all (c : cache) (ks : list bytes) : cache := fold_left cremove ks c.
 
 Definition ckeys (c : cache) : list bytes := map fst (items c).
+
+(* well-formedness w.r.t. a predicate on entries: entries satisfy it, keys are distinct (it is a
+   map), the capacity is non-zero (NonZeroUsize) and respected *)
+Definition cache_wf (Q : bytes * V -> Prop) (c : cache) : Prop :=
+  Forall Q (items c) /\ NoDup (ckeys c) /\ 1 <= capacity c /\ clen c <= capacity c.
 End Cache.
 Arguments cache V : clear implicits.
